@@ -70,14 +70,18 @@ func (a *Application) executePassthroughRequest(
 	// Log request start
 	a.logRequestStart(pr, len(endpoints))
 
+	// a backend answer need not carry a Content-Type: whether the response has started is
+	// recorded by the writer, not guessed from that header
+	tracker := &responseStartTracker{ResponseWriter: w}
+
 	// Execute proxy
-	err = a.proxyService.ProxyRequestToEndpoints(ctx, w, r, endpoints, pr.stats, pr.requestLogger)
+	err = a.proxyService.ProxyRequestToEndpoints(ctx, tracker, r, endpoints, pr.stats, pr.requestLogger)
 
 	a.logRequestResult(pr, err)
 
 	if err != nil {
 		// only write error if response hasn't started
-		if w.Header().Get(constants.HeaderContentType) == "" {
+		if !tracker.started && w.Header().Get(constants.HeaderContentType) == "" {
 			a.writeTranslatorError(w, trans, pr, fmt.Errorf("proxy error: %w", err), http.StatusBadGateway)
 		}
 	}
